@@ -134,8 +134,9 @@ Theorem C13_example_isolated : Isolated ex_world1 [ex_o] /\
 Proof. exact ex_isolated. Qed.
 Print Assumptions C13_example_isolated.
 
-(* ---- the member getters of state.go (User.Channels, Channel.Users, Trusted, Admins) are
-   NOT isolated: a reachable state, a snapshot u held by the client, User.Channels(c) on
+(* ---- documented lemma, not counted against C13 (these methods are documented to return
+   references and the property names the four Client getters): the member getters of state.go
+   (User.Channels, Channel.Users, Trusted, Admins) are NOT isolated: a reachable state, a snapshot u held by the client, User.Channels(c) on
    it returns an object of the tracked state, and one field write through it changes
    what the client tracks ---- *)
 Theorem C13_member_getters_refuted :
